@@ -14,6 +14,7 @@ use std::io::{BufRead, Write};
 use std::panic::{catch_unwind, AssertUnwindSafe};
 
 mod svg;
+mod uw;
 
 pub fn unhex(s: &str) -> Vec<u8> {
     if s == "-" {
@@ -46,6 +47,7 @@ fn run_case(line: &str) -> Answer {
     let f: Vec<&str> = it.collect();
     // every module answers for the case kinds it knows
     None.or_else(|| svg::dispatch(kind, &f))
+        .or_else(|| uw::dispatch(kind, &f))
         .unwrap_or_else(|| Answer::Done(format!("UNKNOWN-KIND {kind}")))
 }
 
